@@ -13,7 +13,7 @@ import (
 
 func TestC30(t *testing.T) {
 	r := vh.New(t, "C30", "lambda")
-	r.Shard = 6
+	r.Shard = 5
 	r.Coq("From Verif Require Import Base.Effects Calcium.World Calcium.Ops Calcium.Run.", "Run.case", "Run.agree", "Run.ok_c30")
 
 	type scen struct {
@@ -66,7 +66,7 @@ func TestC30(t *testing.T) {
 	for _, s := range corpus {
 		run(s, s.name)
 	}
-	n := r.N(30, 1000)
+	n := r.N(14, 1000)
 	for i := 0; i < n; i++ {
 		d0 := c10.NewDriver(t, r.Rng, false)
 		o, _ := d0.RandomOp([]string{"lambda"})
